@@ -40,12 +40,23 @@ type Ty struct {
 	Pkg    int // declaring package of an unnamed struct
 }
 
+type ConstDecl struct {
+	Name string
+	Val  int64 // token of the value (strings: "s<token>", "" for 0)
+}
+
 type NamedDecl struct {
-	ID    int
-	Pkg   int // 1 = p (converter package), 2 = q
-	Name  string
-	Under *Ty
-	Enum  bool
+	ID     int
+	Pkg    int // 1 = p (converter package), 2 = q
+	Name   string
+	Under  *Ty
+	Consts []ConstDecl // constants of this type in its package (an enum when the kind is integer, float or string)
+	EnumOf int         // target enum derived from this source enum (id), -1 otherwise
+}
+
+// IsEnum: enum.Detect succeeds (named integer / float / string type with at least one constant in its package)
+func (d *NamedDecl) IsEnum() bool {
+	return d.Under != nil && d.Under.K == "basic" && d.Under.Kind != bkBool && len(d.Consts) > 0
 }
 
 type Program struct {
@@ -148,8 +159,12 @@ func (p *Program) coqEnv() string {
 				ms = append(ms, "("+runes(f.Name)+", "+p.coqTy(f.Tgt)+")")
 			}
 		}
-		ds = append(ds, fmt.Sprintf("{| n_pkg := %d; n_pkgname := %s; n_name := %s; n_under := %s; n_enum := %s; n_methods := %s |}",
-			d.Pkg, runes(pkgNames[d.Pkg]), runes(d.Name), p.coqTy(d.Under), coqBool(d.Enum), coqList(ms)))
+		var cs []string
+		for _, c := range d.Consts {
+			cs = append(cs, fmt.Sprintf("(%s, (%d)%%Z)", runes(c.Name), c.Val))
+		}
+		ds = append(ds, fmt.Sprintf("{| n_pkg := %d; n_pkgname := %s; n_name := %s; n_under := %s; n_enum := %s; n_methods := %s; n_consts := %s |}",
+			d.Pkg, runes(pkgNames[d.Pkg]), runes(d.Name), p.coqTy(d.Under), coqBool(d.IsEnum()), coqList(ms), coqList(cs)))
 	}
 	return coqList(ds)
 }
@@ -225,8 +240,18 @@ func (p *Program) declsSource(pkg int) string {
 			needQ = true
 		}
 		fmt.Fprintf(&body, "type %s %s\n", d.Name, src)
-		if d.Enum {
-			fmt.Fprintf(&body, "const %s_A %s = 1\n", d.Name, d.Name)
+		for _, c := range d.Consts {
+			lit := fmt.Sprint(c.Val)
+			if d.Under.Kind == bkString {
+				lit = `""`
+				if c.Val != 0 {
+					lit = fmt.Sprintf(`"s%d"`, c.Val)
+				}
+			}
+			if d.Under.Kind == bkBool {
+				lit = []string{"false", "true"}[c.Val&1]
+			}
+			fmt.Fprintf(&body, "const %s %s = %s\n", c.Name, d.Name, lit)
 		}
 		if d.Under.K == "struct" {
 			var params, inits []string
